@@ -5,7 +5,14 @@ from io import BytesIO
 from typing import Dict, List, Mapping, Optional, Sequence, Tuple, Union, cast
 
 from pdfminer import settings
-from pdfminer.casting import safe_cmyk, safe_float, safe_int, safe_matrix, safe_rgb
+from pdfminer.casting import (
+    safe_cmyk,
+    safe_float,
+    safe_int,
+    safe_matrix,
+    safe_rect_list,
+    safe_rgb,
+)
 from pdfminer.cmapdb import CMap, CMapBase, CMapDB
 from pdfminer.pdfcolor import PREDEFINED_COLORSPACE, PDFColorSpace
 from pdfminer.pdfdevice import PDFDevice, PDFTextSeq
@@ -44,7 +51,6 @@ from pdfminer.utils import (
     Matrix,
     PathSegment,
     Point,
-    Rect,
     choplist,
     mult_matrix,
 )
@@ -1206,9 +1212,22 @@ class PDFPageInterpreter:
         log.debug("Processing xobj: %r", xobj)
         subtype = xobj.get("Subtype")
         if subtype is LITERAL_FORM and "BBox" in xobj:
+            bbox = safe_rect_list([resolve1(v) for v in list_value(xobj["BBox"])])
+            if bbox is None:
+                log.warning(
+                    f"Ignoring form XObject {xobjid!r} because its BBox {xobj['BBox']!r} cannot be parsed as 4 floats"
+                )
+                return
+            matrix: Optional[Matrix] = MATRIX_IDENTITY
+            if "Matrix" in xobj:
+                values = [resolve1(v) for v in list_value(xobj["Matrix"])]
+                matrix = safe_matrix(*values) if len(values) == 6 else None
+                if matrix is None:
+                    log.warning(
+                        f"Ignoring Matrix of form XObject {xobjid!r} because {values!r} cannot be parsed as 6 floats"
+                    )
+                    matrix = MATRIX_IDENTITY
             interpreter = self.dup()
-            bbox = cast(Rect, list_value(xobj["BBox"]))
-            matrix = cast(Matrix, list_value(xobj.get("Matrix", MATRIX_IDENTITY)))
             # According to PDF reference 1.7 section 4.9.1, XObjects in
             # earlier PDFs (prior to v1.2) use the page's Resources entry
             # instead of having their own Resources entry.
